@@ -368,3 +368,14 @@ def q8_unique_fields(ctx):
 
 
 RULES.append(('Q8', q8_unique_fields))
+
+
+def q9_lexical(ctx):
+    """Q9 percent literals and money operands of percent phrases are percent / money tokens (E7b lexical competition model: month stage, regex families in TOKEN_REGEX_PARSER order with first-claim-wins,
+    alias stage; samples generated from the configuration)"""
+    from ..lexrules import run_samples, number_samples, based_samples, money_samples, unit_samples, month_samples, zone_samples, duration_samples, percent_samples, keyword_samples
+    ctx.rule('Q9', 'percent literals and money operands of percent phrases are percent / money tokens', floor=150)
+    run_samples(ctx, 'Q9', percent_samples(ctx))
+
+
+RULES.append(('Q9', q9_lexical))
